@@ -459,3 +459,35 @@ Proof.
     apply (c2_arith g u _ O (inject_Z (Zsum (map (fun xc : Q * Z => snd xc) l))) (inject_Z Iu) M); auto.
     rewrite <- Zle_Qle. lia.
 Qed.
+
+(* alpha_e is never above alpha (keys of the table are increasing) *)
+Lemma lookup_score_alpha_order G (bg : list Q) p mn mx o ir :
+  lookup_score NumQ G bg p mn mx = Ok o ->
+  dist_exact ir mn mx (last (ls_rows o) []) ->
+  (ls_alpha_e o <= ls_alpha o)%Z.
+Proof.
+  intros Hlook Hdist.
+  unfold lookup_score in Hlook. cbn [NumQ n_isnan] in Hlook.
+  apply rbind_ok in Hlook. destruct Hlook as [rowsq [Hdistr Hlook]].
+  set (lastm := last rowsq []) in *.
+  destruct (length lastm) as [|top] eqn:Elen; [discriminate|].
+  apply rbind_ok in Hlook. destruct Hlook as [[[riter sum] pvs] [Hloop Hlook]].
+  apply rbind_ok in Hlook. destruct Hlook as [[[[a ae] pvs'] exh] [Hsel Hlook]].
+  apply rbind_ok in Hlook. destruct Hlook as [pa [Hpa Hlook]].
+  apply rbind_ok in Hlook. destruct Hlook as [pe [Hpe Hlook]].
+  inversion Hlook; subst o; clear Hlook. cbn [ls_alpha ls_alpha_e ls_rows] in *. fold lastm in Hdist.
+  destruct (dist_exact_keys _ _ _ _ Hdist) as [Hsort _].
+  destruct (gt NumQ sum p).
+  - apply rbind_ok in Hsel. destruct Hsel as [ae0 [Hae0 Hsel]].
+    apply rbind_ok in Hsel. destruct Hsel as [a0 [Ha0 Hsel]]. inversion Hsel; subst.
+    apply key_at_ok in Hae0. destruct Hae0 as [v1 H1]. apply key_at_ok in Ha0. destruct Ha0 as [v2 H2].
+    assert (ae < a)%Z; [|lia].
+    eapply (sorted_nth_lt (map fst lastm) Hsort riter (S riter)); eauto using nth_error_map_fst.
+  - destruct riter as [|r'].
+    + apply rbind_ok in Hsel. destruct Hsel as [a0 [Ha0 Hsel]]. inversion Hsel; subst. lia.
+    + apply rbind_ok in Hsel. destruct Hsel as [a0 [Ha0 Hsel]].
+      apply rbind_ok in Hsel. destruct Hsel as [ae0 [Hae0 Hsel]]. inversion Hsel; subst.
+      apply key_at_ok in Hae0. destruct Hae0 as [v1 H1]. apply key_at_ok in Ha0. destruct Ha0 as [v2 H2].
+      assert (ae < a)%Z; [|lia].
+      eapply (sorted_nth_lt (map fst lastm) Hsort r' (S r')); eauto using nth_error_map_fst.
+Qed.
